@@ -143,69 +143,3 @@ def expr_case(exprs, bound):
             rel.append(list(e))
     r["box_relations"] = rel
     return r
-
-
-# ------------------------------------------------------------------------------------------------
-# the suggested repair (used only to attribute known findings: the failing input is re-run with the
-# repaired functions patched in memory; /repo is never touched)
-# ------------------------------------------------------------------------------------------------
-
-def integer_kernel(rows, ncols):
-    """Z-basis of {x in Z^ncols | row . x = 0 for all rows}: unimodular row reduction of [M^T | I]."""
-    m = len(rows)
-    W = [[rows[i][j] for i in range(m)] + [1 if j == l else 0 for l in range(ncols)] for j in range(ncols)]
-    r = 0
-    for c in range(m):
-        while True:
-            nz = [i for i in range(r, ncols) if W[i][c] != 0]
-            if len(nz) <= 1:
-                break
-            p = min(nz, key=lambda i: abs(W[i][c]))
-            for i in nz:
-                if i != p:
-                    q = W[i][c] // W[p][c]
-                    W[i] = [a - q * b for a, b in zip(W[i], W[p])]
-        nz = [i for i in range(r, ncols) if W[i][c] != 0]
-        if nz:
-            W[r], W[nz[0]] = W[nz[0]], W[r]
-            r += 1
-    return [row[m:] for row in W[r:]]
-
-
-def _repaired_compute_basis_rational(self):
-    from sympy import Rational, factorint, numer, denom
-    k = len(self.bases)
-    mult = {}
-    for i, b in enumerate(self.bases):
-        b = Rational(b)
-        for f, m in factorint(numer(b)).items():
-            mult.setdefault(f, [0] * k)[i] += m
-        for f, m in factorint(denom(b)).items():
-            mult.setdefault(f, [0] * k)[i] -= m
-    rows = [[int(x) for x in v] + [0] for f, v in mult.items() if f != -1]
-    rows.append([int(x) for x in mult.get(-1, [0] * k)] + [2])
-    return [v[:k] for v in integer_kernel(rows, k + 1)]
-
-
-def _repaired_is_trivially_empty(orig):
-    def f(self):
-        if any(b == 1 for b in self.bases):
-            return False
-        return orig(self)
-    return f
-
-
-def repaired_batch(cases, repair):
-    """re-run with an in-memory repair: repair = "kernel" (integer kernel instead of rational nullspace
-    + astype(int)) or "one" (coprimality shortcut not taken when a base equals 1; the rational branch
-    then needs the fixed-width matrix of the repaired kernel as well)"""
-    from invariants import exponent_lattice as el
-    cls = el.ExponentLattice
-    saved = (cls.compute_basis_rational, cls.is_trivially_empty)
-    try:
-        cls.compute_basis_rational = _repaired_compute_basis_rational
-        if repair == "one":
-            cls.is_trivially_empty = _repaired_is_trivially_empty(saved[1])
-        return rational_batch(cases)
-    finally:
-        cls.compute_basis_rational, cls.is_trivially_empty = saved
